@@ -119,6 +119,22 @@ def run(ck, facts, tier):
             ck.ok(R, "overlap-iff-not-disjoint")
         else:
             ck.violation(R, "overlap-iff-not-disjoint", vs.where(), "specialization must be examined exactly for non-disjoint pairs")
+    if vs:
+        # an overlap error, once produced, is the verdict: from the block that builds CoherenceError::OverlappingImpls the next pair
+        # (the loop's Iterator::next) must be unreachable - otherwise a later pair can overwrite / forget the error
+        cfg = vs.cfg
+        errs = [b for b, j, st in cfg.agg_sites("chalk_solve::coherence::CoherenceError", "OverlappingImpls")]
+        nxt = [b for b in cfg.call_blocks("Iterator::next") if "TupleCombinations" in str(cfg.blocks[b]["t"].get("recv", "")) or
+               "tuple_combinations" in str(cfg.blocks[b]["t"])] or cfg.call_blocks("Iterator::next")
+        ck.floor(R, "visit_specializations_of_trait.OverlappingImpls-sites/loop-head", min(len(errs), len(nxt)), 1)
+        if errs and nxt:
+            again = [e for e in errs if any(n in cfg.reachable(e, (), False) for n in nxt)]
+            if again:
+                ck.violation(R, "overlap-error-is-final", vs.where(cfg.blocks[again[0]]["t"].get("ln")),
+                             "after an overlapping pair was found the loop goes on to the next pair: the error is only a value that a later "
+                             "pair may overwrite, so a program with conflicting impls can be accepted")
+            else:
+                ck.ok(R, "overlap-error-is-final", "the error is returned from the loop at once")
     dj = need_body(ck, facts, R, CS + "disjoint")
     if dj:
         ms = [m for m in walk(dj.thir) if m.get("k") == "match" and "Option<chalk_solve::solve::Solution" in m.get("sty", "")]
